@@ -190,6 +190,16 @@ func parseVia(entry, text string, base int, prec uint32, mode uint8, chunk int, 
 		} else {
 			z = d
 		}
+	case "ParseDecimal+hugeprec":
+		// a precision argument above MaxPrec is documented (SetPrec) to mean MaxPrec
+		huge := uint(decimal.MaxPrec) + []uint{1, 6, 1 << 31, 3 << 32}[len(text)%4]
+		d, b, err := decimal.ParseDecimal(text, base, huge, decimal.RoundingMode(mode))
+		out.ok, out.base = err == nil, b
+		if err != nil {
+			out.nilOK = d == nil
+		} else {
+			z = d
+		}
 	case "ctx.NewString":
 		// package context: "a floating-point number of the same format as accepted
 		// by Parse with base argument 0 ... d's precision and rounding mode are set
@@ -722,7 +732,7 @@ func runParse(sc *Scenario) *Outcome {
 		}
 	}
 	ref := parseVia("Parse", text, base, prec, mode, 0, nil, nil)
-	if !single || bs.Entry == "Parse+laden" || bs.Entry == "Parse+failed" || bs.Entry == "Parse+lowfirst" {
+	if !single || bs.Entry == "Parse+laden" || bs.Entry == "Parse+failed" || bs.Entry == "Parse+lowfirst" || bs.Entry == "ParseDecimal+hugeprec" {
 		// the outcome must not depend on what the receiver held before (value,
 		// sign, accuracy, buffer): same call into a history-laden receiver
 		lad := one("Parse+laden", text, base, 0, nil)
@@ -753,6 +763,17 @@ func runParse(sc *Scenario) *Outcome {
 					&BytesSpec{Entry: "Parse+lowfirst", Text: text, Base: base, RecvPrec: prec, RecvMode: mode})
 			}
 			cnt["after_low_precision_parse_agreements"]++
+			if ^uint(0)>>32 != 0 && ref.base == 10 && !strings.ContainsAny(text, "pP") && len(text) < 400 {
+				// precision arguments beyond MaxPrec (64-bit uint): same as MaxPrec. Base-10
+				// literals only: their cost does not grow with the precision.
+				hp := one("ParseDecimal+hugeprec", text, base, 0, nil)
+				mp := parseVia("ParseDecimal", text, base, decimal.MaxPrec, mode, 0, nil, nil)
+				if hp.panicMsg != "" || hp.key() != mp.key() {
+					return viol("entry-points-disagree", fmt.Sprintf("ParseDecimal(%q, %d, prec > MaxPrec) = %s %s\n  ParseDecimal(%q, %d, MaxPrec) = %s", text, base, hp.key(), hp.panicMsg, text, base, mp.key()),
+						&BytesSpec{Entry: "ParseDecimal+hugeprec", Text: text, Base: base, RecvPrec: prec, RecvMode: mode})
+				}
+				cnt["huge_precision_arguments_checked"]++
+			}
 		}
 	}
 	ref0 := ref
